@@ -25,8 +25,14 @@ func freePass() {
 	total := 0
 	for _, f := range families {
 		f := f
+		if *flagFam != "" && f.name != *flagFam {
+			continue
+		}
 		engine.Explore(engine.ExploreOpts{Bound: 0, Workers: 1}, func(c *engine.Chooser) {
 			base := genConfig(c, f.name)
+			if base.Family == "long" && base.FailAt >= 0 {
+				return // the 200-packet sessions are the expensive ones under -race: one failure position is enough here
+			}
 			for _, q := range []string{"linked", "chan"} {
 				n := iters
 				if base.Ping2 {
